@@ -863,7 +863,8 @@ func (p *PolicyManager) SyncPodChains(pod *corev1.Pod) error {
 		return p.deletePodChains(pod)
 	}
 	if pod.Status.PodIP == "" {
-		return nil
+		// the pod is not networked (yet), what was programmed for an earlier pod of this name is stale
+		return p.deletePodChains(pod)
 	}
 	if err := p.ensureBasicChain(); err != nil {
 		return err
